@@ -18,7 +18,7 @@ logging.disable(logging.CRITICAL)
 PLAUSIBLE_UNKNOWN = ["13.7.0", "14.7.0", "33.7.0", "53.7.0", "73.7.0", "81.7.40", "96.7.21", "96.14.0", "0.2.8", "24.2.1", "9.7.0", "15.8.0"]  # no common name; also used by preludes
 K_UNITS = ["kW", "kWh", "kvar", "kvarh"]
 PLAIN_UNITS = ["V", "A", "var", "varh"]
-OTHER_UNITS = ["m3", "s", "Hz", "kVA", "W", "Wh", "GJ"]
+OTHER_UNITS = ["m3", "s", "Hz", "kVA", "W", "Wh", "GJ", "kV", "kA", "kv", "KA", "Kv", "kVAh", "MW", "MWh", "mA", "mV", "kHz", "k", "kWh2", "kW2", "Vh", "Ah", "kVar2", "VA", "kWp", "akW", "varh2", "h", "kvarhh"]
 TEXT_ALPHABET = "ABCDEFGHIJKLMNOPQRSTUVWXYZabcdefghijklmnopqrstuvwxyz0123456789 .:_-+,;<=>?@[]^`{|}~#$%&'\""
 
 
@@ -56,10 +56,13 @@ def dataset_st(draw, used_cde, used_names):
         cde = f"{c}.{d}.{e}"
     used_cde.add(cde)
     used_names.add(name_of(cde))
-    a = draw(st.sampled_from([None, 0, 1, 1]))
-    b = draw(st.sampled_from([None, 0, 0, 1, 3]))
-    f = draw(st.sampled_from([None, None, None, 255, 1]))
-    addr = ("" if a is None else f"{a}-") + ("" if b is None else f"{b}:") + cde + ("" if f is None else f"*{f}")
+    a = draw(st.sampled_from([None, 0, 1, 1, 1, 6, 7, 8, 2, 4, 5, 9, 255, 128]) | st.integers(0, 255))  # medium: electricity, but also heat, gas, water, abstract ...
+    b = draw(st.sampled_from([None, 0, 0, 1, 3, 2, 64, 255]))
+    f = draw(st.sampled_from([None, None, None, 255, 1, 0, 126]))
+    if draw(st.integers(0, 5)) == 0:  # the six-part dotted form A.B.C.D.E.F
+        addr = f"{0 if a is None else a}.{0 if b is None else b}.{cde}.{255 if f is None else f}"
+    else:
+        addr = ("" if a is None else f"{a}-") + ("" if b is None else f"{b}:") + cde + ("" if f is None else f"*{f}")
     if cde == "1.0.0":
         d = draw(st.datetimes(min_value=datetime.datetime(2000, 1, 1), max_value=datetime.datetime(2099, 12, 31, 23, 59, 59)))
         if draw(st.integers(0, 3)) == 3:
